@@ -78,37 +78,40 @@ def blankLineSplitsEntry (doc : Bytes) (errLines : List Nat) : Bool :=
     isWsOnly (ls.getD i []) && !errLines.contains (i + 1) &&
       (match (ls.getD (i + 1) []).head? with | some b => isBlank b | none => false)
 
-/-- The oracle of C04/C05 on the implementation's edit list.  `lenient` switches off the checks
-    that need the formatted text to be read back (used only to see whether a failure is
-    explained by a known finding whose guard holds). -/
-def judge (j : Json) (doc : Bytes) (tree : Journal) (opts : Fmt.Options) (implE : List Edit)
+/-- What both oracles need first: the edits apply, and harness and driver agree on the result. -/
+def applied (j : Json) (doc : Bytes) (implE : List Edit) : Except String Bytes := do
+  let some doc2 := applyEdits doc implE | throw "edits cannot be applied (overlap or start > end)"
+  if !jhas j "doc2" then throw "harness could not apply the edits"
+  if doc2 != jhex j "doc2" then throw "FRAMEWORK: reference appliers of harness and driver disagree"
+  return doc2
+
+/-- The oracle of C05 on the implementation's edit list: well-formed edits, idempotence
+    (formatting the result again changes nothing), indent and common amount column. -/
+def judgeC05 (j : Json) (doc : Bytes) (tree : Journal) (opts : Fmt.Options) (implE : List Edit)
     (lenient : Bool := false) : Verdict := Id.run do
-  if !editsWellFormed doc implE then return ⟨false, "C05 edits not well-formed (range outside the document, start > end or overlap)"⟩
-  let some doc2 := applyEdits doc implE | return ⟨false, "C05 edits cannot be applied"⟩
-  if !jhas j "doc2" then return ⟨false, "harness could not apply the edits"⟩
-  if doc2 != jhex j "doc2" then return ⟨false, "FRAMEWORK: reference appliers of harness and driver disagree"⟩
+  if !editsWellFormed doc implE then
+    return ⟨false, "C05 edits not well-formed (range outside the document, start > end or overlap)"⟩
+  let doc2 ← match applied j doc implE with
+    | .ok d => pure d
+    | .error e => return ⟨false, "C05 " ++ e⟩
   let tree2 := journalOf (jget j "tree2")
   let errs := arrOf perrOf (jget j "errs")
   let errs2 := arrOf perrOf (jget j "errs2")
   let second := arrOf editOf (jget j "second")
-  let pl := postingLineNats tree
-  if !nonPostingLinesOnlyLoseTrailingBlanks doc doc2 pl then
-    return ⟨false, "C04 a line that is not a posting changed by more than loss of trailing blanks"⟩
-  if !unparsedTextKept doc doc2 (errs.map fun e => (e.pos.line, e.pos.col)) then
-    return ⟨false, "C04 text the parser failed to understand was deleted"⟩
   if lenient then return ⟨true, ""⟩
-  if !journalEqv tree tree2 then return ⟨false, "C04 meaning changed: " ++ firstDiff tree tree2⟩
-  if !errsEqv errs errs2 then return ⟨false, "C04 diagnostics changed"⟩
-  if applyEdits doc2 second != some doc2 then return ⟨false, "C05 not idempotent: formatting the formatted text changes it"⟩
+  if applyEdits doc2 second != some doc2 then
+    return ⟨false, "C05 not idempotent: formatting the formatted text changes it"⟩
   if opts.alignAmounts then
     let ind := effIndent opts
     let lines2 := splitLines doc2
-    let errLines := errs.map fun e => e.pos.line
-    let ps2 := (allPostings tree2).filter fun p => !errLines.contains p.range.start.line
-    let indentOk := ps2.all fun p =>
+    let errLines := errs.map (·.pos.line) ++ errs2.map (·.pos.line)
+    -- lines rewritten in this round: postings of the original tree without a parse error
+    let indentOk := ((allPostings tree).filter fun p => !errLines.contains p.range.start.line).all fun p =>
       let l := lines2.getD (p.range.start.line - 1) []
       l.take ind == spaces ind && (l.drop ind).head? != some 32 && (l.drop ind).head? != some 9
     if !indentOk then return ⟨false, "C05 a posting line does not start with exactly the configured indent"⟩
+    -- amount columns as the real parser sees them in the formatted text
+    let ps2 := (allPostings tree2).filter fun p => !errLines.contains p.range.start.line
     let cols := ps2.filterMap fun p => match p.status, p.amount with
       | .none, some a => some (a.range.start.col - 1)
       | _, _ => none
@@ -120,6 +123,24 @@ def judge (j : Json) (doc : Bytes) (tree : Journal) (opts : Fmt.Options) (implE 
       if c < ind + maxAcc + 2 then return ⟨false, "C05 amount column is less than two blanks after the longest account"⟩
   return ⟨true, ""⟩
 
+/-- The oracle of C04.  `lenient` switches off the checks that need the formatted text to be
+    read back (used only to see whether a failure is explained by a known finding). -/
+def judgeC04 (j : Json) (doc : Bytes) (tree : Journal) (implE : List Edit) (lenient : Bool := false) : Verdict := Id.run do
+  let doc2 ← match applied j doc implE with
+    | .ok d => pure d
+    | .error e => return ⟨false, "C04 " ++ e⟩
+  let tree2 := journalOf (jget j "tree2")
+  let errs := arrOf perrOf (jget j "errs")
+  let errs2 := arrOf perrOf (jget j "errs2")
+  if !nonPostingLinesOnlyLoseTrailingBlanks doc doc2 (postingLineNats tree) then
+    return ⟨false, "C04 a line that is not a posting changed by more than loss of trailing blanks"⟩
+  if !unparsedTextKept doc doc2 (errs.map fun e => (e.pos.line, e.pos.col)) then
+    return ⟨false, "C04 text the parser failed to understand was deleted"⟩
+  if lenient then return ⟨true, ""⟩
+  if !journalEqv tree tree2 then return ⟨false, "C04 meaning changed: " ++ firstDiff tree tree2⟩
+  if !errsEqv errs errs2 then return ⟨false, "C04 diagnostics changed"⟩
+  return ⟨true, ""⟩
+
 def format (j : Json) : Json :=
   let doc := jhex j "doc"
   let tree := journalOf (jget j "tree")
@@ -128,18 +149,25 @@ def format (j : Json) : Json :=
   let errs := arrOf perrOf (jget j "errs")
   let edits := formatText tree errs doc formats opts
   let mutKind := jstr j "mut"
+  let prop := jstr j "prop"
   let inDomain := mutKind == "" && validUtf8 doc && 1 ≤ opts.indentSize && opts.indentSize ≤ 8 &&
     0 ≤ opts.minCol && opts.minCol ≤ 80 &&
     (match formats with | some m => m.all (fun kv => fmtInDomain kv.2) | none => true)
   let implE := arrOf editOf (jget j "impl")
-  let v := if inDomain then judge j doc tree opts implE else ⟨true, ""⟩
+  let v5 : Verdict := if inDomain && prop != "C04" then judgeC05 j doc tree opts implE else ⟨true, ""⟩
+  let v4 : Verdict := if inDomain && prop != "C05" then judgeC04 j doc tree implE else ⟨true, ""⟩
   let errLines := errs.map (·.pos.line)
+  -- a failure is attributed to a known finding only if its guard holds and everything that does
+  -- not depend on reading the formatted text back still passes
+  let lenientOk := (v5.ok || (judgeC05 j doc tree opts implE true).ok) &&
+    (v4.ok || (judgeC04 j doc tree implE true).ok)
   let known : Array Json :=
-    if !v.ok && (judge j doc tree opts implE true).ok then
+    if !(v5.ok && v4.ok) && lenientOk then
       (if gluedLeftCommodity doc tree formats errLines then #[Json.str "glued-left-commodity"] else #[]) ++
-      (if blankLineSplitsEntry doc errLines then #[Json.str "trimmed-blank-line-splits-entry"] else #[])
+      (if !v4.ok && blankLineSplitsEntry doc errLines then #[Json.str "trimmed-blank-line-splits-entry"] else #[])
     else #[]
-  Json.mkObj [("model", arrJ editJ edits), ("in_domain", inDomain), ("spec_ok", v.ok), ("why", v.why),
+  let why := if !v5.ok then v5.why else v4.why
+  Json.mkObj [("model", arrJ editJ edits), ("in_domain", inDomain), ("spec_ok", v5.ok && v4.ok), ("why", why),
     ("known", Json.arr known), ("nontrivial", inDomain && !(allPostings tree).isEmpty)]
 
 /-- op c05.number: ParseNumberFormat on a format string and FormatNumber of a quantity under
